@@ -67,22 +67,22 @@ pub struct E0;
 pub struct Oracle {
     pub stop_at: u8,            // the k-th task wait (1-based) reports "stopped"; 0 = never
     pub waits: u8,
-    pub awaited: [u8; 8],       // per task id: number of completed waits
-    pub finished: [bool; 8],    // poll answers per task id
+    pub awaited: [u8; 12],       // per task id: number of completed waits
+    pub finished: [bool; 12],    // poll answers per task id
     pub polls: u8,
 }
 impl Oracle {
-    pub fn new() -> Self { Oracle { stop_at: 0, waits: 0, awaited: [0; 8], finished: [false; 8], polls: 0 } }
+    pub fn new() -> Self { Oracle { stop_at: 0, waits: 0, awaited: [0; 12], finished: [false; 12], polls: 0 } }
     fn wait_task(&mut self, t: &mut Task) -> Result<JobTaskWaitResult, error::Error> {
         self.waits += 1;
         if self.waits == self.stop_at { return Ok(JobTaskWaitResult::Stopped); }
-        let i = t.id as usize; kani::assume(i < 8);
+        let i = t.id as usize; kani::assume(i < 12);
         self.awaited[i] += 1;
         Ok(JobTaskWaitResult::Completed(ExecutionResult::success()))
     }
     fn poll_task(&mut self, t: &mut Task) -> Option<Result<ExecutionResult, error::Error>> {
         self.polls += 1;
-        let i = t.id as usize; kani::assume(i < 8);
+        let i = t.id as usize; kani::assume(i < 12);
         if self.finished[i] { Some(Ok(ExecutionResult::success())) } else { None }
     }
 }
@@ -234,4 +234,26 @@ fn vk_c17_history_ids() {
     while i < mgr.jobs.len() { if matches!(mgr.jobs[i].annotation, JobAnnotation::Current) { cur += 1; assert!(mgr.jobs[i].id == new_id, "C17.history.current_is_newest"); } i += 1; }
     assert!(cur == 1, "C17.history.exactly_one_current");
     std::mem::forget(r1); std::mem::forget(mgr);
+}
+
+//@proof {'props': ['C17'], 'tier': 'thorough', 'timeout': 2400, 'uses': ['poll', 'poll_done', 'add'], 'bounds': 'history: add, add, add, poll (symbolic completions), add, poll (symbolic completions), add - from the empty table', 'desc': 'longer history: live job numbers stay pairwise distinct through two rounds of reaping and launching'}
+#[kani::proof]
+#[kani::unwind(8)]
+fn vk_c17_history_ids_long() {
+    let mut mgr = Mgr { jobs: Vec::with_capacity(8) };
+    let mut o = Oracle::new();
+    t_add(&mut mgr, Job::mk(0, 1, 0)); t_add(&mut mgr, Job::mk(1, 1, 0)); t_add(&mut mgr, Job::mk(2, 1, 0));
+    o.finished[0] = kani::any(); o.finished[2] = kani::any(); o.finished[4] = kani::any();
+    let r1 = vk_ok(t_poll(&mut mgr, &mut o));
+    t_add(&mut mgr, Job::mk(3, 1, 0));
+    assert!(distinct(&mgr), "C17.history.live_ids_distinct_after_first_round");
+    o.finished[0] = kani::any(); o.finished[2] = kani::any(); o.finished[4] = kani::any(); o.finished[6] = kani::any();
+    let r2 = vk_ok(t_poll(&mut mgr, &mut o));
+    let n2 = mgr.jobs.len();
+    kani::assume(n2 <= 3);
+    t_add(&mut mgr, Job::mk(4, 1, 0));
+    kani::cover!(n2 == 2, "two_survivors_before_last_add");
+    assert!(distinct(&mgr), "C17.history.live_ids_distinct_after_second_round");
+    assert!(mgr.jobs.len() == n2 + 1, "C17.history.add_appends_one");
+    std::mem::forget(r1); std::mem::forget(r2); std::mem::forget(mgr);
 }
